@@ -6,7 +6,7 @@ PROP = {
              # lengths / element type with exactly the published impl bounds, and with plain method syntax (direct oracles)
              {"tag": "c08call", "bin": "gcall", "no_default_features": True, "args": ["--prop", "C08"], "model": False}],
     "mismatch_is_failing": True,
-    "rule": "N in {0,1,2,3,4,5,6,16,33,97} x element type with (Tr) and without (u32) drop glue x map x4 forms, zip x9 stack forms + Box x Box, fold x4, generate x4, Clone, Default; recording closures log (call index, arguments); compared as sequences with the model's call log and results. distinct = distinct CASE lines; non-trivial = N > 0",
+    "rule": "N in {0,1,2,3,4,5,6,16,33,97} x element type with (Tr) and without (u32) drop glue x map x4 forms, zip x9 stack forms + Box x Box, fold x4, generate x4, Clone, Default; recording closures log (call index, arguments); compared as sequences with the model's call log and results. Default runs in two forms (GenericArray::default(), default_boxed()) with Tr and with Sd: plain, not zero-sized, a stateful Default (serial numbers) whose first value is the all-zero bit pattern. distinct = distinct CASE lines; non-trivial = N > 0",
     "nontrivial": lambda case, obs: case.split()[3] != "0",
     "manifest": {
         "design_ref": "DESIGN.md section 7, C08",
